@@ -311,11 +311,20 @@ def handle (op : String) (req : Json) : R Json := do
       (List.range layers.length).all (fun i => match layers[i]? with
         | some l => decide (l.rows = if i % 2 = 0 then l0 else l1) && decide (l.cols = if i % 2 = 0 then s0 else s1)
         | none => false)
+    -- the lines of a crossed stack (lengths may differ within a layer kind: `Ragged`)
+    let linesCrossed := decide (2 ≤ layers.length) &&
+      (List.range layers.length).all (fun i => match layers[i]? with
+        | some l => decide (l.rows = if i % 2 = 0 then l0 else l1)
+        | none => false)
     -- the specification: warm-up = the exact quotient rounded half-even, offsets and sub-pixels per pixel as the
     -- setters' specification gives them (`offsets_setter_exact`), the float magnification's integer
     let wi := warmupSpec h.seconds h.scantime
     let w := wi.toNat
     let vspec := validSpec wi mag l0 s0 l1 s1
+    -- every layer holds the warm-up and the samples read from it (the second half of `Ragged`)
+    let allLong := decide (0 ≤ wi) && (List.range layers.length).all (fun i => match layers[i]? with
+        | some l => decide (w + (if i % 2 = 0 then l1 else l0) * mag ≤ l.cols)
+        | none => false)
     let rr := reconRows l0 mag p c.offs
     let rc := reconCols l1 mag p c.offs
     let n := layers.length
@@ -343,7 +352,7 @@ def handle (op : String) (req : Json) : R Json := do
       | none => Json.null)
     pure (jObj ([
       ("stack_ok", jBool true), ("fields", jFields stack.fields), ("stack", jList (jLayer nel) layers),
-      ("config", jCfg c), ("crossed", jBool crossed),
+      ("config", jCfg c), ("crossed", jBool crossed), ("lines_crossed", jBool linesCrossed), ("all_long_enough", jBool allLong),
       ("valid", jOpt jBool valid), ("valid_spec", jBool vspec),
       ("model", model), ("spec", jArr3 specArr), ("spec_inrange", jBool inrange),
       ("flat_model", Json.arr flatModel.toArray), ("flat_spec", Json.arr flatSpecs.toArray),
